@@ -192,3 +192,18 @@ def run(ctx):
                 break
     ctx.check("context-separation", "delegation-contexts", diff is not None, "delegation contexts differ at byte %s (inside both strings)" % diff,
               "one delegation context is a prefix of the other (%r / %r): a certificate could verify under both protocols" % (a, b))
+
+    # ------------------------------------------------------------------ (6) "every certificate the server ever sends, from any worker": the CERT a responder
+    # sends is the one made for the online key that signs its responses.  C02's rules on how Responder::new builds cert_bytes and on which bytes
+    # send_responses puts into CERT are obligations of C10 as well (a certificate cached per long-term key, reused by a responder with another online
+    # key, is a valid delegation of the wrong key).
+    import importlib
+    from framework import Ctx
+    c2 = importlib.import_module("rules.C02")
+    sub2 = Ctx("C02", P, ctx.repo, "quick", ctx.feature)
+    c2.run(sub2)
+    mine2 = [i for i in sub2.instances if i["key"].endswith("Responder::new/certifies-stored-key-and-version") or i["key"].endswith("send_responses/cert-is-own-certificate")]
+    bad2 = [i for i in mine2 if not i["ok"]]
+    ctx.check("certificate", "sent-certificate-is-for-the-signing-online-key(C02)", not bad2 and len(mine2) == 2,
+              "each responder sends encode(make_cert(its version, its online key)) (C02: %d instances)" % len(mine2),
+              "a responder can send a certificate that does not delegate the key it signs with: " + (bad2[0]["detail"] if bad2 else "anchor missing"), bad2[0].get("loc") if bad2 else None)
